@@ -42,8 +42,13 @@ func runC07() {
 		runHistory(c, int64(1_000_000+i), true)
 	}
 	// START_ACTIVITY side last: it installs process-wide singletons (viper, apricot.Instance).
+	nSeq := 24
+	if c.Tier == "thorough" {
+		nSeq = 192
+	}
 	lo, hi = c.Slice(nStart)
-	if hi > lo {
-		runStartSide(c, lo, hi)
+	slo, shi := c.Slice(nSeq)
+	if hi > lo || shi > slo {
+		runStartSide(c, lo, hi, slo, shi)
 	}
 }
